@@ -110,8 +110,17 @@ func execRch(f []string) string {
 }
 
 func gen(r *vh.Rand) string {
-	if r.Chance(1, 40) {
+	switch r.Intn(80) {
+	case 0, 1:
 		return genHs(r)
+	case 2:
+		return genCa(r)
+	case 3, 4, 5:
+		return genRl(r)
+	case 6, 7, 8:
+		return genCl(r)
+	case 9:
+		return genCn(r)
 	}
 	var k x.Kase
 	x.GenCfg(r, &k)
@@ -124,6 +133,16 @@ func exec(op string) string {
 	switch f[0] {
 	case "rch":
 		return execRch(f)
+	case "rl":
+		return execRl(f)
+	case "cl":
+		return execCl(f)
+	case "cn":
+		return execCn(f)
+	case "ca":
+		certOnce.Do(makeCerts)
+		x.PKIErr()
+		return vh.SafeTimeout(120*time.Second, func() string { return execCa(f) })
 	case "hs":
 		// key generation (once per process) is kept outside the watchdog: under load it can take many seconds,
 		// and timing must never decide a verdict; a handshake over the in-memory connection cannot block on I/O,
